@@ -136,6 +136,8 @@ func (gme *GCPMultiEndpoint) NewStream(ctx context.Context, desc *grpc.StreamDes
 }
 
 func (gme *GCPMultiEndpoint) pickConn(ctx context.Context) *grpc.ClientConn {
+	gme.mu.RLock()
+	defer gme.mu.RUnlock()
 	name, ok := FromMEContext(ctx)
 	me, ook := gme.mes[name]
 	if !ok || !ook {
@@ -145,6 +147,8 @@ func (gme *GCPMultiEndpoint) pickConn(ctx context.Context) *grpc.ClientConn {
 }
 
 func (gme *GCPMultiEndpoint) Close() error {
+	gme.mu.RLock()
+	defer gme.mu.RUnlock()
 	var errs multiError
 	for e, mc := range gme.pools {
 		mc.stopMonitoring()
